@@ -63,6 +63,27 @@ Engine E2 (vf/engines/aio.py): exhaustive enumeration of schedules of the REAL
                                   index) must complete with model(text).  `_req_queue` / `_req_results` are not
                                   demanded empty there.  Reported as "loop-abandoned:<moment>:<class>", class
                                   "later-request-not-served" for a request that raises or never completes
+               request-cancelled  one more choice ("cancel", k), enabled while request k is under way (and something
+                                  else can still happen): the caller of request k gives up (asyncio.wait_for on a
+                                  timeout, a client that went away): its task is cancelled, at most one per schedule.
+                                  The cancelled request owes nothing (a vector it returns all the same must be
+                                  right); every other request - of the same batch, of other batches, of a later
+                                  round - must complete with model(text).  `_req_queue` / `_req_results` are not
+                                  demanded empty there (the result computed for the cancelled request stays behind:
+                                  counted).  1-3 requests + a later one, separate arrivals and bursts, cache off / on;
+                                  one 2-request configuration at loop-iteration granularity (deviation bounded), the
+                                  only place where a request waits for room in the queue when it is cancelled.
+                                  Reported as "request-cancelled:<what the cancelled request waited for>:<class>",
+                                  class "other-request-not-served" for a request that raises or never completes
+               colliding-texts    the requests ask for two DIFFERENT texts that resemble each other: TEXT_PAIRS = pairs
+                                  that collide under at least one of TEXT_KEY_DERIVATIONS (adler32, crc32, polynomial
+                                  string hashes, byte sum / xor, anagrams, length, case, whitespace, punctuation,
+                                  unicode normalisation, non-ascii dropped, first / last 60 characters, prefix);
+                                  checksum collisions are checked to hold behind any common prefix.  Cache off and
+                                  every store x key generator; both texts in one list, one after the other, in one
+                                  batch / two batches in every order, a search on an index built from them through
+                                  add_items/build.  Oracle as everywhere: each text gets ITS model vector.  Reported
+                                  as "colliding-texts:<how the texts resemble>:<key generator>-keys:<class>"
   binding      during every prefix replay the enabled list at every depth must equal the recorded one; 1-in-N
                schedules (by hash of the trace) are re-run twice from scratch and must give identical
                observations (traces_validated_against_impl); a divergence is a harness error.
@@ -77,6 +98,8 @@ import re
 import shutil
 import tempfile
 import time
+import unicodedata
+import zlib
 
 from vf.props.c19_env import C19Env, ModelCallFailed, is_injected
 
@@ -245,16 +268,17 @@ def maker(cfg, scratch):
     models = models_of(cfg)
     mids = mids_of(cfg)
     cache = cfg.get("cache")
-    items = [L["Item"](text=t, meta={"i": i}) for i, t in enumerate(ITEM_TEXTS)]
+    items = [L["Item"](text=t, meta={"i": i}) for i, t in enumerate(cfg.get("items") or ITEM_TEXTS)]
 
     def make(env):
         global _CUR
         w = World(env, cfg)
         _CUR = w
-        special = bool(cfg.get("burst") or cfg.get("fail") or cfg.get("loops", 1) > 1)
+        special = bool(cfg.get("burst") or cfg.get("fail") or cfg.get("loops", 1) > 1 or cfg.get("cancel"))
         if special:
             C19Env.adopt(env, w, [k for k, r in enumerate(reqs) if r[2] == 1],
-                         second_loop=cfg.get("loops", 1) > 1, fail=cfg.get("fail"), abandon=cfg.get("abandon"))
+                         second_loop=cfg.get("loops", 1) > 1, fail=cfg.get("fail"), abandon=cfg.get("abandon"),
+                         cancel=cfg.get("cancel"))
             env.monitor = lambda: on_step(env, w)
         _GUARD.restore()    # no library-global container carries anything over from the previous execution
         if cache:
@@ -343,31 +367,38 @@ def _same(v, ref):
     return _is_vec(v) and list(v) == ref
 
 
-def _whose(v, others, model="verif", mids=MODELS):
+def _whose(v, others, model="verif", mids=MODELS, texts=ITEM_TEXTS):
     """name the text whose model vector v is"""
     if v is None:
         return "none"
     if not _is_vec(v):
         return "not-a-vector"
-    for t in ITEM_TEXTS:
+    for t in texts:
         if list(v) == vec(t, model):
             return "vector-of-another-request" if t in others else "vector-of-an-unrequested-text"
     for m in mids:
-        if m != model and any(list(v) == vec(t, m) for t in ITEM_TEXTS):
+        if m != model and any(list(v) == vec(t, m) for t in texts):
             return "vector-of-another-model"
     return "unknown-vector"
 
 
-def vname(v, mids=MODELS):
+def vname(v, mids=MODELS, texts=ITEM_TEXTS):
     """a vector, named when it is the model vector of a known text"""
     if _is_vec(v):
         for m in mids:
-            for t in ITEM_TEXTS:
+            for t in texts:
                 if list(v) == vec(t, m):
                     return f"model({t!r})" if m == MODELS[0] else f"{m}({t!r})"
     if isinstance(v, (list, tuple)) and v and all(isinstance(x, (list, tuple)) or x is None for x in v):
-        return "[" + ", ".join(vname(x, mids) for x in v) + "]"
+        return "[" + ", ".join(vname(x, mids, texts) for x in v) + "]"
     return repr(v)
+
+
+def texts_of(cfg):
+    """the texts a vector is named after: the index items plus (family colliding-texts) the texts of the pair"""
+    extra = [t for t in (cfg.get("texts") or ()) if t not in ITEM_TEXTS]
+    extra += [t for t in (cfg.get("items") or ()) if t not in ITEM_TEXTS and t not in extra]
+    return tuple(ITEM_TEXTS) + tuple(extra)
 
 
 def req_name(k, kind, payload, which=0, models=None):
@@ -463,6 +494,8 @@ def judge(cfg, env, w, info):
     models = models_of(cfg) if cfg.get("models") else None
     abandoned = getattr(env, "abandoned", False)    # the first event loop was given up with requests under way
     cut = getattr(env, "cut", ())                   # ... these requests went with it
+    gone = getattr(env, "cancelled_req", None)      # the request whose caller gave up (family request-cancelled)
+    known = texts_of(cfg)
     all_texts = []
     for kind, payload, _r, _w in reqs:
         all_texts.extend(payload if kind == "G" else [payload])
@@ -476,6 +509,13 @@ def judge(cfg, env, w, info):
         if loop_of.get(k, 0) >= 1:
             name += " (on the second event loop)"
         model = mids[which]
+        if k == gone and (res is None or res[0] != "ok"):
+            # its caller gave up: it owes nothing (a vector it returns all the same is checked below)
+            if res is None and outcome == "stuck":
+                names, _fut = env.where_blocked(k)
+                out.append(("cancelled-request-never-returns",
+                            f"{name} was cancelled and still waits ({' > '.join(names[1:])})"))
+            continue
         if res is None:
             if k in started and outcome == "stuck":
                 names, fut = env.where_blocked(k)
@@ -515,9 +555,9 @@ def judge(cfg, env, w, info):
         if kind == "B":
             if not _same(v, vec(payload, model)):
                 others = [t for t in all_texts if t != payload]
-                how = _whose(v, others, model, mids)
+                how = _whose(v, others, model, mids, known)
                 out.append((f"wrong-vector:batch:{how}",
-                            f"{name} returned {vname(v, mids)}, not {vname(vec(payload, model), mids)}"))
+                            f"{name} returned {vname(v, mids, known)}, not {vname(vec(payload, model), mids, known)}"))
         elif kind == "G":
             exp = [vec(t, model) for t in payload]
             if not isinstance(v, (list, tuple)):
@@ -529,9 +569,9 @@ def judge(cfg, env, w, info):
                     how = "permuted"
                 else:
                     i = next(i for i, (x, e) in enumerate(zip(v, exp)) if not _same(x, e))
-                    how = _whose(v[i], [t for t in all_texts if t != payload[i]], model, mids)
+                    how = _whose(v[i], [t for t in all_texts if t != payload[i]], model, mids, known)
                 out.append((f"wrong-vector:list:{how}",
-                            f"{name} returned {vname(list(v), mids)}, expected {vname(exp, mids)}"))
+                            f"{name} returned {vname(list(v), mids, known)}, expected {vname(exp, mids, known)}"))
         else:
             texts = [getattr(i, "text", None) for i in v] if isinstance(v, (list, tuple)) else None
             if texts != [payload]:
@@ -545,7 +585,7 @@ def judge(cfg, env, w, info):
                 out.append((f"wrong-vector:search:{how}",
                             f"{name} found {texts!r}; the query's own embedding finds exactly [{payload!r}]"))
     n_leftover = len(out)
-    if outcome == "done" and not abandoned:
+    if outcome == "done" and not abandoned and gone is None:
         for idx in w.indexes:
             if idx._req_queue:
                 out.append(("leftover:_req_queue",
@@ -571,6 +611,23 @@ def judge(cfg, env, w, info):
         out = [(f"colliding-model-names:{cfg['pair']}:" +
                 (f"vector-of-another-model:{via}" if sig.endswith(":vector-of-another-model") else sig),
                 what + (f"  [models {models_of(cfg)!r}]" if i == 0 else "")) for i, (sig, what) in enumerate(out)]
+    elif cfg.get("tpair"):
+        # family colliding-texts: the class is how the two texts resemble each other, the key generator of the
+        # cache (none: cache off) and what the request shows
+        gen = f"{cfg['cache'][1]}-keys" if cfg.get("cache") else "cache-off"
+        out = [(f"colliding-texts:{cfg['tpair']}:{gen}:{sig}",
+                what + (f"  [texts {list(cfg['texts'])!r}, cache {cfg.get('cache')!r}]" if i == 0 else ""))
+               for i, (sig, what) in enumerate(out)]
+    elif gone is not None:
+        # family request-cancelled: the class is what the cancelled request was waiting for and what ANOTHER request
+        # shows: not served (it raises or waits for ever) or the ordinary wrong-vector classes
+        gk, gp = reqs[gone][0], reqs[gone][1]
+        out = [(f"request-cancelled:{env.cancel_phase}:" +
+                ("other-request-not-served" if sig.startswith(("exception:", "no-completion:")) else sig),
+                what + f" - after the caller of {req_name(gone, gk, gp, reqs[gone][3], models)} gave up "
+                       f"{env.cancel_phase.replace('-', ' ')} (that request was cancelled; requests "
+                       f"{sorted(env.inflight_at_cancel)!r} were under way with it)")
+               for sig, what in out]
     elif abandoned:
         # family loop-abandoned: the class is the moment at which the first loop was given up and what a later
         # request shows: not served (it raises or waits for ever) or the ordinary wrong-vector classes
@@ -620,7 +677,8 @@ def replay_dict(cfg, env, w, info):
 
 def public_cfg(cfg):
     return {k: cfg[k] for k in ("reqs", "mbs", "cache", "prewarm", "use_batching", "build", "granularity",
-                                "burst", "loops", "fail", "abandon", "pair", "models") if k in cfg}
+                                "burst", "loops", "fail", "abandon", "pair", "models", "cancel", "tpair", "texts",
+                                "items") if k in cfg}
 
 
 # ------------------------------------------------------------------ one configuration
@@ -653,8 +711,16 @@ def explore(task):
         "schedules_with_first_loop_abandoned": 0, "schedules_with_loop_abandoned_during_batch_hold_time": 0,
         "schedules_with_loop_abandoned_during_model_call": 0, "requests_given_up_with_their_loop": 0,
         "requests_served_after_an_abandoned_loop": 0,
+        "schedules_with_a_request_cancelled": 0, "schedules_with_request_cancelled_during_batch_hold_time": 0,
+        "schedules_with_request_cancelled_during_model_call": 0,
+        "schedules_with_request_cancelled_while_waiting_for_room_in_the_queue": 0,
+        "requests_served_next_to_or_after_a_cancelled_request": 0,
+        "schedules_with_result_left_behind_for_a_cancelled_request": 0,
+        "schedules_with_two_resembling_texts": 0, "schedules_with_two_resembling_texts_and_cache_on": 0,
+        "schedules_with_two_resembling_texts_in_one_model_call": 0,
     }
-    family = ("colliding-model-names" if cfg.get("pair") else "loop-abandoned" if cfg.get("abandon")
+    family = ("colliding-texts" if cfg.get("tpair") else "request-cancelled" if cfg.get("cancel") else
+              "colliding-model-names" if cfg.get("pair") else "loop-abandoned" if cfg.get("abandon")
               else "model-call-raises" if cfg.get("fail") else "second-event-loop" if cfg.get("loops", 1) > 1
               else "burst-arrival" if cfg.get("burst") else "plain")
     quiesc = cfg.get("granularity", "quiescence") == "quiescence"
@@ -707,6 +773,22 @@ def explore(task):
             counts["requests_given_up_with_their_loop"] += len(env.cut)
             counts["requests_served_after_an_abandoned_loop"] += sum(
                 1 for k, r in env.results.items() if r[0] == "ok" and env.loop_of.get(k, 0) >= 1)
+        if getattr(env, "cancelled_req", None) is not None:
+            counts["schedules_with_a_request_cancelled"] += 1
+            ph = env.cancel_phase
+            counts["schedules_with_request_cancelled_during_batch_hold_time"] += ph == "during-batch-hold-time"
+            counts["schedules_with_request_cancelled_during_model_call"] += ph == "during-model-call"
+            counts["schedules_with_request_cancelled_while_waiting_for_room_in_the_queue"] += \
+                ph == "while-waiting-for-room-in-the-batch-queue"
+            counts["requests_served_next_to_or_after_a_cancelled_request"] += sum(
+                1 for k, r in env.results.items() if r[0] == "ok" and k != env.cancelled_req)
+            counts["schedules_with_result_left_behind_for_a_cancelled_request"] += \
+                info["outcome"] == "done" and any(i._req_results for i in w.indexes)
+        if cfg.get("tpair"):
+            counts["schedules_with_two_resembling_texts"] += 1
+            counts["schedules_with_two_resembling_texts_and_cache_on"] += bool(cfg.get("cache"))
+            counts["schedules_with_two_resembling_texts_in_one_model_call"] += any(
+                all(t in c for t in cfg["texts"]) for c in w.calls)
         hit = bool(cfg.get("cache")) and info["outcome"] == "done" and got < n_texts
         counts["schedules_with_concurrent_model_calls"] += w.max_inflight >= 2
         counts["schedules_with_queue_full_wait"] += w.full_wait
@@ -745,8 +827,11 @@ def explore(task):
                     cur["what"] = (f"{what}  | config {public_cfg(cfg)!r} schedule "
                                    f"{' '.join(label_str(x) for x in trace)}")
                     cur["replay"] = replay_dict(cfg, env, w, info)
-        elif len(samples) < 1 and w.calls and len(trace) >= 5 and info["deviations"] >= 1 and (
-                shared if family in ("plain", "burst-arrival") else w.failed is not None
+        elif len(samples) < 1 and w.calls and (len(trace) >= 5 or family == "colliding-texts") and \
+                info["deviations"] >= 1 and (
+                shared if family in ("plain", "burst-arrival") else
+                getattr(env, "cancelled_req", None) is not None if family == "request-cancelled" else
+                bool(cfg.get("cache")) if family == "colliding-texts" else w.failed is not None
                 if family == "model-call-raises" else len(w.callers) >= 2 if family == "colliding-model-names"
                 else getattr(env, "abandoned", False) if family == "loop-abandoned"
                 else getattr(env, "switched", False)):
@@ -754,7 +839,9 @@ def explore(task):
                             "schedule": " ".join(label_str(x) for x in trace),
                             "model_calls": [list(c) for c in w.calls], "outcome": info["outcome"],
                             "results": [("raised the injected failure" if r[0] == "exc" else
-                                         "given up with its event loop" if r[0] == "cancelled" else "equal to model(text)")
+                                         ("cancelled by its caller" if family == "request-cancelled" else
+                                          "given up with its event loop") if r[0] == "cancelled"
+                                         else "equal to model(text)")
                                         if r is not None else None for r in (env.results.get(k) for k in range(len(reqs)))],
                             "results_equal_model_or_injected_failure": True})
 
@@ -832,6 +919,8 @@ def label_str(x):
         return f"timer{x[1]}"
     if x[0] == "ext":
         return f"model{x[1][1]}" + ("-raises" if x[1][0] == "model-raises" else "")
+    if x[0] == "cancel":
+        return f"cancel{x[1]}"
     return x[0]
 
 
@@ -984,6 +1073,8 @@ SECOND_LOOP_FAMILY = True       # configurations whose second round runs on a fr
 MODEL_NAMES_FAMILY = True       # two indexes whose (engine, model name) differ but resemble each other
 ENGINE_BOUNDARY_PAIRS = True    # ... including pairs that differ only in where the engine name ends and the model begins
 LOOP_ABANDONED_FAMILY = True    # the first event loop is given up at any moment while requests are under way
+REQUEST_CANCELLED_FAMILY = True  # one request is cancelled by its caller at any moment while it is under way
+COLLIDING_TEXTS_FAMILY = True   # two different texts that resemble each other, every key generator x store
 
 # Two different embedding models in one process (core index and knowledge base, two configurations of one server):
 # (label = how the two names resemble each other, (engine, model name) of index 0, ... of index 1).  Every pair
@@ -1038,6 +1129,103 @@ def name_pairs():
         if not under:
             raise RuntimeError(f"HARNESS: the names of pair {label} collide under no key derivation")
         out.append((label, m1, m2, under))
+    return out
+
+
+# Two DIFFERENT texts that resemble each other: (label = how they resemble, text 1, text 2).  Every pair collides under
+# at least one of TEXT_KEY_DERIVATIONS - cheap ways of turning a text into a cache key (32-bit checksums, sums,
+# polynomial string hashes, normalisations, truncations).  The checksum / hash collisions hold whatever common prefix
+# is put in front of the two texts (a key generator is given name space + text): checked with two prefixes below.
+# The texts differ, so the vectors differ: the fake model derives its vector from the exact text.
+_T60 = "please tell me everything about the refund policy of product "
+_T60B = " is what I would like to know about, as soon as you possibly can"
+TEXT_PAIRS = [
+    ("same-adler32-checksum", "aca", "bab"),
+    ("same-adler32-checksum-longer-texts", "ada lovelace", "bbb lovelace"),
+    ("same-crc32-checksum", "uejgtcuo", "iiwucoup"),
+    ("same-crc32-checksum-2", "lvtnpxbn", "cxjabgax"),
+    ("same-polynomial-31-string-hash", "Aa", "BB"),
+    ("same-polynomial-33-string-hash", "ab", "bA"),
+    ("same-byte-sum", "ad", "bc"),
+    ("same-byte-xor", "ad", "bg"),
+    ("anagrams", "listen", "silent"),
+    ("same-length", "cat", "dog"),
+    ("same-up-to-letter-case", "Hello", "hello"),
+    ("same-up-to-surrounding-space", "hi", " hi"),
+    ("same-up-to-trailing-newline", "hi", "hi\n"),
+    ("same-up-to-inner-whitespace", "a b", "a  b"),
+    ("same-up-to-whitespace-kind", "a b", "a\tb"),
+    ("empty-and-blank", "", " "),
+    ("same-up-to-punctuation", "hi", "hi!"),
+    ("same-up-to-unicode-normalisation", "caf\u00e9", "cafe\u0301"),
+    ("same-up-to-non-ascii-characters", "na\u00efve", "nave"),
+    ("same-first-60-characters", _T60 + "A", _T60 + "B"),
+    ("same-last-60-characters", "the weather" + _T60B, "the invoice" + _T60B),
+    ("one-text-a-prefix-of-the-other", "hello", "hello there"),
+]
+
+
+def _poly(mult, mod=1 << 32):
+    def f(t):
+        h = 0
+        for ch in t.encode("utf-8"):
+            h = (h * mult + ch) % mod
+        return h
+    return f
+
+
+def _xor(t):
+    h = 0
+    for ch in t.encode("utf-8"):
+        h ^= ch
+    return h
+
+
+TEXT_KEY_DERIVATIONS = {
+    "adler32 of the text": lambda t: zlib.adler32(t.encode("utf-8")),
+    "crc32 of the text": lambda t: zlib.crc32(t.encode("utf-8")),
+    "polynomial string hash, multiplier 31": _poly(31),
+    "polynomial string hash, multiplier 33": _poly(33),
+    "sum of the bytes": lambda t: sum(t.encode("utf-8")),
+    "xor of the bytes": _xor,
+    "sorted characters": lambda t: "".join(sorted(t)),
+    "length": len,
+    "case-folded text": lambda t: t.casefold(),
+    "stripped text": lambda t: t.strip(),
+    "whitespace-collapsed text": lambda t: " ".join(t.split()),
+    "alphanumeric characters only": lambda t: re.sub(r"[^0-9A-Za-z]", "", t),
+    "NFC-normalised text": lambda t: unicodedata.normalize("NFC", t),
+    "ascii characters only": lambda t: t.encode("ascii", "ignore"),
+    "first 60 characters": lambda t: t[:60],
+    "last 60 characters": lambda t: t[-60:],
+    "first 5 characters": lambda t: t[:5],
+}
+_PREFIX_PROOF = ("", '["an engine", "a/model"]\n', "x" * 37)     # a name space put in front must not matter
+_PREFIX_FREE = ("adler32 of the text", "crc32 of the text", "polynomial string hash, multiplier 31",
+                "polynomial string hash, multiplier 33")
+
+
+def text_pairs():
+    """-> [(label, t1, t2, [derivations under which the two collide])] of the pairs in use"""
+    out = []
+    for label, t1, t2 in TEXT_PAIRS:
+        if t1 == t2:
+            raise RuntimeError(f"HARNESS: the two texts of pair {label} are the same")
+        if vec(t1) == vec(t2):
+            raise RuntimeError(f"HARNESS: the fake model does not tell the texts of pair {label} apart")
+        under = []
+        for d, f in TEXT_KEY_DERIVATIONS.items():
+            if d in _PREFIX_FREE:
+                hits = [f(p + t1) == f(p + t2) for p in _PREFIX_PROOF]
+                if any(hits) and not all(hits):
+                    continue        # a collision that a name space in front would undo does not count
+                if all(hits):
+                    under.append(d)
+            elif f(t1) == f(t2):
+                under.append(d)
+        if not under:
+            raise RuntimeError(f"HARNESS: the texts of pair {label} collide under no key derivation")
+        out.append((label, t1, t2, under))
     return out
 
 
@@ -1116,6 +1304,60 @@ def family_tasks(tier):
                                 for burst in ((False, True) if n1 > 1 or n2 > 1 else (False,)):
                                     out.append(_cfg(reqs, mbs, cache, prewarm, loops=2, abandon=True,
                                                     **({"burst": True} if burst else {})))
+    if REQUEST_CANCELLED_FAMILY:
+        # -- the caller of one request gives up at any moment at which that request is under way (waiting for room in
+        # the batch queue, while its batch is held, during the model call); everybody else - the requests of the same
+        # batch, of other batches, and a request that arrives afterwards - must be served
+        pool_c = [B_A, B_B, S_A, G_EB] if quick else [B_A, B_B, B_E, S_A, G_ABA, G_EB]
+        for n1 in (1, 2, 3):
+            for m1 in multisets(pool_c, n1):
+                if not any(kd in "BS" for kd, _p in m1):
+                    continue
+                plain3 = all(kd == "B" for kd, _p in m1)    # quick, 3 separate arrivals: batched texts only
+                for m2 in ((), (B_B,)) if n1 > 1 else ((B_B,), (S_A,)):
+                    reqs = [(kd, p, 1) for kd, p in m1] + [(kd, p, 2) for kd, p in m2]
+                    for mbs in (1, 2, 3):
+                        if mbs == 3 and n1 < 3:
+                            continue        # as mbs 2 with 2 requests: the batch never fills
+                        for cache, prewarm in (CACHES_TWO[:1] if quick and n1 == 3 else CACHES_TWO):
+                            for burst in ((False, True) if n1 > mbs else (False,)):
+                                if quick and n1 == 3 and not burst and (m2 or not plain3):
+                                    continue
+                                if quick and n1 == 3 and any(kd == "G" for kd, _p in m1):
+                                    continue
+                                out.append(_cfg(reqs, mbs, cache, prewarm, cancel=True,
+                                                **({"burst": True} if burst else {})))
+        # loop-iteration granularity: the caller may give up between any two loop iterations (a request that waits
+        # for room in the batch queue exists only there)
+        # (deviation bound iterated within a time limit, as for the other large configurations)
+        for m in (multisets([B_A, B_B], 2)[1:2] if quick else multisets([B_A, B_B, S_A], 2)):
+            for mbs in (1,) if quick else (1, 2):
+                out.append(_cfg([(kd, p, 1) for kd, p in m] + ([] if quick else [("B", "b", 2)]), mbs, None, (),
+                                cancel=True, granularity="iteration", max_choices=400, dev_iter=True,
+                                max_dev=3 if quick else 40, big=True, time_limit=8 if quick else 60))
+    if COLLIDING_TEXTS_FAMILY:
+        # -- two different texts that resemble each other (TEXT_PAIRS), every key generator x store (and cache off):
+        # both in one list, one after the other (the second finds what the first left in the store), both in one
+        # batch / in two batches in every order, and a search on an index built from them through add_items/build
+        caches_t = [None] + [c for c, pw in CACHES_ALL if c and not pw]
+        for label, t1, t2, _under in text_pairs():
+            shapes = [
+                ([("G", (t1, t2), 1)], (2,), "prebuilt"),
+                ([("G", (t1,), 1), ("G", (t2, t1), 2)], (2,), "prebuilt"),
+                ([("B", t1, 1), ("B", t2, 1)], (1, 2), "prebuilt"),
+                ([("B", t1, 1), ("B", t2, 2)], (2,), "prebuilt"),
+                ([("S", t2, 1)], (2,), "api"),
+            ]
+            if not quick:
+                shapes += [([("G", (t2, t1, t2), 1), ("B", t1, 1)], (1, 2), "prebuilt"),
+                           ([("S", t1, 1), ("S", t2, 1)], (1, 2), "api")]
+            for reqs, sizes_t, build in shapes:
+                for mbs in sizes_t:
+                    for cache in caches_t:
+                        if build == "api" and not cache:
+                            continue
+                        out.append(_cfg(reqs, mbs, cache, (), tpair=label, texts=[t1, t2], build=build,
+                                        **({"items": [t1, t2, "something else"]} if build == "api" else {})))
     if MODEL_FAILURE_FAMILY:
         # -- every model call may raise (at most one per schedule); a second round shows that the index still serves
         pool_f = [B_A, B_B, G_EB, S_A] if quick else [B_A, B_B, B_E, G_ABA, G_EB, S_A]
@@ -1140,7 +1382,8 @@ def family_tasks(tier):
 
 def small_family(cfg):
     """a configuration of one of the families with a special environment / special models (cheap, run first)"""
-    return bool(cfg.get("fail") or cfg.get("burst") or cfg.get("loops", 1) > 1 or cfg.get("pair"))
+    return bool(cfg.get("fail") or cfg.get("burst") or cfg.get("loops", 1) > 1 or cfg.get("pair")
+                or cfg.get("cancel") or cfg.get("tpair"))
 
 
 def weight(cfg):
@@ -1153,6 +1396,8 @@ def weight(cfg):
         w /= 3
     if small_family(cfg):
         w *= 100    # the three small families first (seconds of CPU in total): a time cap never cuts them
+    if cfg.get("cancel") or cfg.get("tpair"):
+        w *= 1000   # ... and of these the two families that cost least per class of behaviour they cover
     if cfg.get("big"):
         w = 0       # the deviation-bounded configurations run last, each within its own time limit
     return w
@@ -1194,7 +1439,8 @@ def _run(rep, tier, base, par):
         import random
 
         random.Random(rep.seed).shuffle(ts)      # order of work only
-        ts.sort(key=lambda c: 2 if c.get("big") else 0 if small_family(c) else 1)    # as weight() does
+        ts.sort(key=lambda c: 3 if c.get("big") else 2 if not small_family(c) else
+                0 if c.get("cancel") or c.get("tpair") else 1)    # as weight() does
     else:
         ts.sort(key=lambda c: -weight(c))
     by_id = {c["id"]: c for c in ts}
@@ -1246,13 +1492,16 @@ def _run(rep, tier, base, par):
             else:
                 cur["n"] += v["n"]
     for i in (0, 1):        # one sample of every family first (at most 6 are kept)
-        for f in sorted(samples_by_family):
+        for f in sorted(samples_by_family, key=lambda f: (f != "plain", f)):    # the core family is always kept
             if i < len(samples_by_family[f]):
                 rep.sample(samples_by_family[f][i])
     rep.set("by_family", by_family)
     if MODEL_NAMES_FAMILY:
         rep.set("model_name_pairs", {label: {"index_0": list(m1), "index_1": list(m2), "collide_under": under}
                                      for label, m1, m2, under in name_pairs()})
+    if COLLIDING_TEXTS_FAMILY:
+        rep.set("text_pairs", {label: {"texts": [t1, t2], "collide_under": under}
+                               for label, t1, t2, under in text_pairs()})
     new = 0
     for sig in sorted(by_sig, key=lambda s: (by_sig[s]["size"], s)):
         v = by_sig[sig]
@@ -1297,8 +1546,18 @@ def _run(rep, tier, base, par):
         "family model-call-raises every model call has a second possible answer - it raises ModelCallFailed (a "
         "ConnectionError) - and at most one call raises in one schedule.  There a request may also end with that error "
         "if it was under way when the call raised; nobody may wait for ever, requests arriving later get model(text), "
-        "and when requests were left waiting the next round is released once nothing else can happen.  No "
-        "cancellation of requests",
+        "and when requests were left waiting the next round is released once nothing else can happen",
+        "family request-cancelled: in these configurations one more choice 'the caller of request k gives up' "
+        "(task.cancel() of that request, as asyncio.wait_for does on a timeout) is enabled at every quiescent point at "
+        "which request k is under way and some other event can still happen; at most one request is cancelled in one "
+        "schedule.  Nothing is demanded of the cancelled request (a vector it returns all the same must be right) and "
+        "the batch tables are not demanded empty afterwards (the result computed for it stays there: counted); every "
+        "other request of the schedule, also one arriving later, must complete with model(text).  In all other "
+        "configurations no request is cancelled",
+        "family colliding-texts: the requests ask for two different texts that collide under a cheap key derivation "
+        "(coverage.text_pairs lists the pairs and the derivations under which each collides; checksum / string-hash "
+        "collisions are checked to hold behind any common prefix); cache off and every store x key generator; the "
+        "search configurations build their 3-item index from the two texts through add_items/build",
         "family burst-arrival: all requests of a round are started within one loop iteration (asyncio.gather); at "
         "quiescence granularity this is how a request finds the batch queue full",
         "family second-event-loop: the requests of round 2 run on a fresh event loop after the first one was wound up "
@@ -1373,6 +1632,8 @@ def replay(rp):
                     note = "   (the failure of the model call reaches the caller: a completion)"
                 elif getattr(env, "abandoned", False) and k in env.cut:
                     note = "   (given up by its caller together with the first event loop)"
+                elif getattr(env, "cancelled_req", None) == k and (res is None or res[0] != "ok"):
+                    note = "   (cancelled by its caller: it owes nothing)"
                 else:
                     note = "" if obs == exp else "   <-- differs"
                 print(f"  {req_name(k, kd, p, wh, models)}\n     expected {exp}\n     observed {obs}{note}")
